@@ -87,11 +87,17 @@ ReqFailed(s, req, res, pre, post) ==
      ELSE \* a request-level error: nothing may have taken effect
           (IF post.objs = pre.objs /\ post.seq = pre.seq THEN {} ELSE {"C08_told"})
           \cup (IF res.kind = "raised" /\ res.exc = "KmipError" THEN {} ELSE {"C13_raise"}))
+    \* the response could not be encoded under the request's version and decoded again
+    \cup (IF res.unenc THEN {"C02_unencodable"} ELSE {})
+    \* the library's own decoder cannot read the response the server produced (client side)
+    \cup (IF res.undec THEN {"C19_undecodable"} ELSE {})
     \cup (IF req.opt = "Undo" => (post.objs = pre.objs /\ (res.kind # "resp" \/ f # 0)) THEN {} ELSE {"C08_undo"})
     \cup (IF req.ver \notin SupportedVersions =>
                 (post.objs = pre.objs /\ (res.kind # "resp" \/ \A k \in DOMAIN res.items : res.items[k].status # "Success"))
           THEN {} ELSE {"C16_refuse"})
-    \cup (IF s.gf THEN {"C13_log"} ELSE {})
+    \* the internal-error log record without any item reporting General Failure
+    \* (an item that does is reported by C13_item)
+    \cup (IF s.gf /\ ~\E k \in DOMAIN res.items : res.items[k].reason = "GeneralFailure" THEN {"C13_log"} ELSE {})
 
 --------------------------------------------------------------------------
 (* model conformance *)
